@@ -13,6 +13,12 @@ STUB_SETS = {
 DEFAULT_VARIANT = [dict(name="default", env={}, target="kani")]
 
 PROPS = {
+    "C18": dict(
+        modules=["c18"],
+        quick=dict(jobs=14, timeout_s=900, mem_gb=8),
+        thorough=dict(jobs=12, timeout_s=3600, mem_gb=16),
+        bounds="", outside="", explanation="", assumptions=[], claim="wip", note="wip",
+    ),
     "C17": dict(
         modules=["c17"],
         quick=dict(jobs=14, timeout_s=900, mem_gb=8),
